@@ -118,11 +118,11 @@ func idStrs(l []peer.ID) []string {
 func c34(c *hx.Ctx) {
 	c.Type = "c34_case"
 	c.Agree = "c34_agree"
-	c.Rule = "every (configuration, stream) over protocols {\"\",p/a,p/b,p/ab,defaults,solicit forms} x peers {\"\",P1,P2,P3} for each of the 7 controllers, real HandleDirective with a real HandleMountedStream directive; all points go through the direct oracle, a seeded sample (all in thorough) becomes Coq cases; non-trivial = the handler offered a resolver"
+	c.Rule = "EVERY field of every controller configuration varied (incl. relay target peer/protocol, forwarding target, srpc disableEstablishLink, pubsub peer, solicit max hashes); every (configuration, stream) over protocols {\"\",p/a,p/b,p/ab,defaults,solicit forms} x peers {\"\",P1,P2,P3} for each of the 7 controllers, real HandleDirective with a real HandleMountedStream directive; all points go through the direct oracle, a seeded sample (all in thorough) becomes Coq cases; non-trivial = the handler offered a resolver"
 	le := fk.Logger()
 	P := []peer.ID{"", fk.PeerID("p1"), fk.PeerID("p2"), fk.PeerID("p3")}
 	protos := []string{"", "p/a", "p/b", "p/ab"}
-	e := &emitter{c: c, keepP: float64(c.N) / 4700.0}
+	e := &emitter{c: c, keepP: float64(c.N) / 9200.0}
 
 	var streams []strm
 	for _, p := range append(append([]string{}, protos...), "bifrost/echo") {
@@ -159,52 +159,59 @@ func c34(c *hx.Ctx) {
 				desc := map[string]any{"handler": "echo", "cfg_proto": cp, "cfg_local": cl.String(), "stream": s.desc(), "offered": got, "panic": pn}
 				want := s.proto == eff && (cl == "" || s.local == cl)
 				check(c, "echo", desc, got, want, pn)
-				e.emit(hx.App("HEcho", hx.Str(cp), hx.Str(string(cl)), s.term(), hx.Bool(got)), desc, "echo", got, fmt.Sprint("echo", cp, cl, s))
+				e.emit(hx.App("HEcho", hx.App("EchoCfg", hx.Str(cp), hx.Str(string(cl))), s.term(), hx.Bool(got)), desc, "echo", got, fmt.Sprint("echo", cp, cl, s))
 			}
 		}
 	}
 	// ---- forwarding ----
 	for _, cp := range protos {
 		for _, cl := range P[:3] {
-			ctrl, err := stream_forwarding.NewController(le, nil, &stream_forwarding.Config{PeerId: pstr(cl), ProtocolId: cp, TargetMultiaddr: "/ip4/127.0.0.1/tcp/8080"})
-			if err != nil {
-				panic(err)
-			}
-			for _, s := range streams {
-				if s.remote != "" && s.remote != P[1] {
-					continue
+			for _, tm := range []string{"/ip4/127.0.0.1/tcp/8080", "/ip4/10.0.0.1/udp/53"} {
+				ctrl, err := stream_forwarding.NewController(le, nil, &stream_forwarding.Config{PeerId: pstr(cl), ProtocolId: cp, TargetMultiaddr: tm})
+				if err != nil {
+					panic(err)
 				}
-				res, pn := offer(ctrl, s)
-				got := len(res) != 0
-				desc := map[string]any{"handler": "forwarding", "cfg_proto": cp, "cfg_local": cl.String(), "stream": s.desc(), "offered": got, "panic": pn}
-				want := (cp == "" || s.proto == cp) && (cl == "" || s.local == cl)
-				check(c, "forwarding", desc, got, want, pn)
-				e.emit(hx.App("HFwd", hx.Str(cp), hx.Str(string(cl)), s.term(), hx.Bool(got)), desc, "forwarding", got, fmt.Sprint("fwd", cp, cl, s))
+				for _, s := range streams {
+					if s.remote != "" && s.remote != P[1] {
+						continue
+					}
+					res, pn := offer(ctrl, s)
+					got := len(res) != 0
+					desc := map[string]any{"handler": "forwarding", "cfg_proto": cp, "cfg_local": cl.String(), "cfg_target_multiaddr": tm, "stream": s.desc(), "offered": got, "panic": pn}
+					want := (cp == "" || s.proto == cp) && (cl == "" || s.local == cl)
+					check(c, "forwarding", desc, got, want, pn)
+					e.emit(hx.App("HFwd", hx.App("FwdCfg", hx.Str(cp), hx.Str(string(cl)), hx.Str(tm)), s.term(), hx.Bool(got)), desc, "forwarding", got, fmt.Sprint("fwd", cp, cl, tm, s))
+				}
 			}
 		}
 	}
 	// ---- relay ----
 	for _, cp := range protos {
 		for _, cs := range P[:3] {
-			ctrl, err := stream_relay.NewController(le, nil, &stream_relay.Config{PeerId: pstr(cs), ProtocolId: cp, TargetPeerId: P[3].String()})
-			if err != nil {
-				// empty protocol or peer id: the controller cannot be built
-				c.Class("relay-ctor-rejects")
-				if cp != "" && cs != "" {
-					c.Failf("relay-ctor", map[string]any{"cfg_proto": cp, "cfg_src": cs.String()}, "relay constructor rejected a complete configuration: %v", err)
+			for _, tp := range []peer.ID{P[2], P[3], P[1]} {
+				for _, tpr := range protos {
+					ctrl, err := stream_relay.NewController(le, nil, &stream_relay.Config{PeerId: pstr(cs), ProtocolId: cp, TargetPeerId: tp.String(), TargetProtocolId: tpr})
+					if err != nil {
+						// empty protocol or peer id: the controller cannot be built
+						c.Class("relay-ctor-rejects")
+						if cp != "" && cs != "" {
+							c.Failf("relay-ctor", map[string]any{"cfg_proto": cp, "cfg_src": cs.String()}, "relay constructor rejected a complete configuration: %v", err)
+						}
+						continue
+					}
+					for _, s := range streams {
+						if s.remote != "" && s.remote != P[1] {
+							continue
+						}
+						res, pn := offer(ctrl, s)
+						got := len(res) != 0
+						desc := map[string]any{"handler": "relay", "cfg_proto": cp, "cfg_src": cs.String(), "cfg_target_peer": tp.String(), "cfg_target_proto": tpr, "stream": s.desc(), "offered": got, "panic": pn}
+						// the relay serves its configured LISTEN protocol and source peer, whatever it dials out with
+						want := s.proto == cp && s.local == cs
+						check(c, "relay", desc, got, want, pn)
+						e.emit(hx.App("HRelay", hx.App("RelayCfg", hx.Str(cp), hx.Str(string(cs)), hx.Str(string(tp)), hx.Str(tpr)), s.term(), hx.Bool(got)), desc, "relay", got, fmt.Sprint("relay", cp, cs, tp, tpr, s))
+					}
 				}
-				continue
-			}
-			for _, s := range streams {
-				if s.remote != "" && s.remote != P[1] {
-					continue
-				}
-				res, pn := offer(ctrl, s)
-				got := len(res) != 0
-				desc := map[string]any{"handler": "relay", "cfg_proto": cp, "cfg_src": cs.String(), "stream": s.desc(), "offered": got, "panic": pn}
-				want := s.proto == cp && s.local == cs
-				check(c, "relay", desc, got, want, pn)
-				e.emit(hx.App("HRelay", hx.Str(cp), hx.Str(string(cs)), s.term(), hx.Bool(got)), desc, "relay", got, fmt.Sprint("relay", cp, cs, s))
 			}
 		}
 	}
@@ -230,7 +237,7 @@ func c34(c *hx.Ctx) {
 					desc := map[string]any{"handler": "accept", "cfg_proto": cp, "cfg_local": cl.String(), "cfg_remotes": idStrs(cr), "stream": s.desc(), "offered": got, "panic": pn}
 					want := s.proto == cp && (cl == "" || s.local == cl) && (len(cr) == 0 || slices.Contains(cr, s.remote))
 					check(c, "accept", desc, got, want, pn)
-					e.emit(hx.App("HAccept", hx.Str(cp), hx.Str(string(cl)), idList(cr), s.term(), hx.Bool(got)), desc, "accept", got, fmt.Sprint("accept", cp, cl, cr, s))
+					e.emit(hx.App("HAccept", hx.App("AcceptCfg", hx.Str(cp), hx.Str(string(cl)), idList(cr)), s.term(), hx.Bool(got)), desc, "accept", got, fmt.Sprint("accept", cp, cl, cr, s))
 				}
 			}
 		}
@@ -245,88 +252,93 @@ func c34(c *hx.Ctx) {
 			ids[i] = protocol.ID(cps[i])
 		}
 		for _, strs := range peerStrSets {
-			srv, err := stream_srpc_server.NewServer(nil, le, info, nil, ids, strs, true)
-			if err != nil {
-				panic(err)
-			}
-			for _, s := range streams {
-				if s.proto == "bifrost/echo" || (s.remote != "" && s.remote != P[1]) {
-					continue
+			for _, del := range []bool{true, false} {
+				srv, err := stream_srpc_server.NewServer(nil, le, info, nil, ids, strs, del)
+				if err != nil {
+					panic(err)
 				}
-				res, pn := offer(srv, s)
-				got := len(res) != 0
-				lstr := s.local.String()
-				desc := map[string]any{"handler": "srpc-server", "cfg_protos": cps, "cfg_peers": strs, "stream": s.desc(), "offered": got, "panic": pn}
-				want := slices.Contains(cps, s.proto) && (len(strs) == 0 || slices.Contains(strs, lstr))
-				check(c, "srpc", desc, got, want, pn)
-				e.emit(hx.App("HSrpc", strList(cps), strList(strs), s.term(), hx.Str(lstr), hx.Bool(got)), desc, "srpc-server", got, fmt.Sprint("srpc", cps, strs, s))
+				for _, s := range streams {
+					if s.proto == "bifrost/echo" || (s.remote != "" && s.remote != P[1]) {
+						continue
+					}
+					res, pn := offer(srv, s)
+					got := len(res) != 0
+					lstr := s.local.String()
+					desc := map[string]any{"handler": "srpc-server", "cfg_protos": cps, "cfg_peers": strs, "cfg_disable_establish_link": del, "stream": s.desc(), "offered": got, "panic": pn}
+					want := slices.Contains(cps, s.proto) && (len(strs) == 0 || slices.Contains(strs, lstr))
+					check(c, "srpc", desc, got, want, pn)
+					e.emit(hx.App("HSrpc", hx.App("SrpcCfg", strList(cps), strList(strs), hx.Bool(del)), s.term(), hx.Str(lstr), hx.Bool(got)), desc, "srpc-server", got, fmt.Sprint("srpc", cps, strs, del, s))
+				}
 			}
 		}
 	}
 	// ---- pubsub ----
 	for _, cp := range protos {
-		ctrl := pubsub_controller.NewController(le, nil, info, "", protocol.ID(cp), nil)
-		for _, s := range streams {
-			if s.remote != "" && s.remote != P[1] {
-				continue
+		for _, cpeer := range []peer.ID{"", P[1], P[2]} {
+			ctrl := pubsub_controller.NewController(le, nil, info, cpeer, protocol.ID(cp), nil)
+			for _, s := range streams {
+				if s.remote != "" && s.remote != P[1] {
+					continue
+				}
+				res, pn := offer(ctrl, s)
+				got := len(res) != 0
+				desc := map[string]any{"handler": "pubsub", "cfg_proto": cp, "cfg_peer": cpeer.String(), "stream": s.desc(), "offered": got, "panic": pn}
+				want := s.proto == cp
+				check(c, "pubsub", desc, got, want, pn)
+				e.emit(hx.App("HPubsub", hx.App("PubsubCfg", hx.Str(string(cpeer)), hx.Str(cp)), s.term(), hx.Bool(got)), desc, "pubsub", got, fmt.Sprint("pubsub", cpeer, cp, s))
 			}
-			res, pn := offer(ctrl, s)
-			got := len(res) != 0
-			desc := map[string]any{"handler": "pubsub", "cfg_proto": cp, "stream": s.desc(), "offered": got, "panic": pn}
-			want := s.proto == cp
-			check(c, "pubsub", desc, got, want, pn)
-			e.emit(hx.App("HPubsub", hx.Str(cp), s.term(), hx.Bool(got)), desc, "pubsub", got, fmt.Sprint("pubsub", cp, s))
 		}
 	}
 	// ---- solicit ----
-	sc, err := link_solicit_controller.NewController(le, &link_solicit_controller.Config{})
-	if err != nil {
-		panic(err)
-	}
-	ctl := string(link_solicit_controller.ControlProtocolID)
-	pre := link_solicit_controller.SolicitStreamPrefix
-	sprotos := []string{"", "p/a", ctl, ctl + "x", ctl[:len(ctl)-1], pre, pre + "abcd", pre + "00ff", pre[:len(pre)-1], "x" + pre + "ab", pre + pre, strings.ToUpper(pre) + "ab", pre + "\xff\x00"}
-	for _, sp := range sprotos {
-		for _, l := range P[:2] {
-			for _, r := range P[:2] {
-				s := strm{sp, l, r}
-				res, pn := offer(sc, s)
-				kind, hash := 0, ""
-				if pn {
-					kind = 3
-				} else if len(res) != 0 {
-					rh := &fk.RH{}
-					for _, rr := range res {
-						_ = rr.Resolve(context.Background(), rh)
-					}
-					for _, v := range rh.Vals {
-						tn := fmt.Sprintf("%T", v)
-						switch {
-						case strings.Contains(tn, "controlStreamMountedHandler"):
-							kind = 1
-						case strings.Contains(tn, "solicitedStreamMountedHandler"):
-							kind = 2
-							hash = reflect.ValueOf(v).Elem().FieldByName("hashHex").String()
-						default:
+	for _, maxHashes := range []uint32{0, 1, 64} {
+		sc, err := link_solicit_controller.NewController(le, &link_solicit_controller.Config{MaxHashes: maxHashes})
+		if err != nil {
+			panic(err)
+		}
+		ctl := string(link_solicit_controller.ControlProtocolID)
+		pre := link_solicit_controller.SolicitStreamPrefix
+		sprotos := []string{"", "p/a", ctl, ctl + "x", ctl[:len(ctl)-1], pre, pre + "abcd", pre + "00ff", pre[:len(pre)-1], "x" + pre + "ab", pre + pre, strings.ToUpper(pre) + "ab", pre + "\xff\x00"}
+		for _, sp := range sprotos {
+			for _, l := range P[:2] {
+				for _, r := range P[:2] {
+					s := strm{sp, l, r}
+					res, pn := offer(sc, s)
+					kind, hash := 0, ""
+					if pn {
+						kind = 3
+					} else if len(res) != 0 {
+						rh := &fk.RH{}
+						for _, rr := range res {
+							_ = rr.Resolve(context.Background(), rh)
+						}
+						for _, v := range rh.Vals {
+							tn := fmt.Sprintf("%T", v)
+							switch {
+							case strings.Contains(tn, "controlStreamMountedHandler"):
+								kind = 1
+							case strings.Contains(tn, "solicitedStreamMountedHandler"):
+								kind = 2
+								hash = reflect.ValueOf(v).Elem().FieldByName("hashHex").String()
+							default:
+								kind = 9
+							}
+						}
+						if len(rh.Vals) != 1 {
 							kind = 9
 						}
 					}
-					if len(rh.Vals) != 1 {
-						kind = 9
+					desc := map[string]any{"handler": "solicit", "cfg_max_hashes": maxHashes, "stream": s.desc(), "kind": kind, "hash": hash}
+					wantKind, wantHash := 0, ""
+					if sp == ctl {
+						wantKind = 1
+					} else if strings.HasPrefix(sp, pre) {
+						wantKind, wantHash = 2, strings.TrimPrefix(sp, pre)
 					}
+					if kind != wantKind || hash != wantHash {
+						c.Failf("solicit-dispatch", desc, "solicit controller answered kind %d hash %q, the protocol id requires kind %d hash %q", kind, hash, wantKind, wantHash)
+					}
+					e.emit(hx.App("HSolicit", hx.App("SolicitCfg", hx.U(uint64(maxHashes))), s.term(), hx.Nat(kind), hx.Str(hash)), desc, "solicit", kind != 0, fmt.Sprint("solicit", maxHashes, s))
 				}
-				desc := map[string]any{"handler": "solicit", "stream": s.desc(), "kind": kind, "hash": hash}
-				wantKind, wantHash := 0, ""
-				if sp == ctl {
-					wantKind = 1
-				} else if strings.HasPrefix(sp, pre) {
-					wantKind, wantHash = 2, strings.TrimPrefix(sp, pre)
-				}
-				if kind != wantKind || hash != wantHash {
-					c.Failf("solicit-dispatch", desc, "solicit controller answered kind %d hash %q, the protocol id requires kind %d hash %q", kind, hash, wantKind, wantHash)
-				}
-				e.emit(hx.App("HSolicit", s.term(), hx.Nat(kind), hx.Str(hash)), desc, "solicit", kind != 0, fmt.Sprint("solicit", s))
-				// solicit cases are few: always keep them
 			}
 		}
 	}
